@@ -70,6 +70,20 @@ def check_crossing(case):
                 lambda: f"{ctx} t={t!r} eer={e!r} FNR(t)={fnr!r}: off by {abs(fnr - e) * P:.4f} samples of 1/{P}")
         cap = min(len(pos) / P, len(neg) / Nn)
         require(e <= cap + 1e-9, "eer:cap", f"{ctx} eer={e!r} > min hard fraction {cap!r}")
+        if ep == 0 and en == 0:
+            from score_analysis import GroupScores
+
+            g = GroupScores(np.asarray(pos, dtype=float), np.asarray(neg, dtype=float),
+                            pos_groups=np.asarray(["g"] * len(pos)), neg_groups=np.asarray(["g"] * len(neg)),
+                            score_class=sc, equal_class=ec)
+            tg, eg = g.eer()
+            fpr_g, fnr_g = float(g.fpr(tg)), float(g.fnr(tg))
+            require(abs(fpr_g - eg) <= 1.0 / Nn + 1e-6 and abs(fnr_g - eg) <= 1.0 / P + 1e-6,
+                    "eer:group-scores-crossing",
+                    lambda: f"{ctx} GroupScores over the same (unsorted) data: eer()=({tg!r},{eg!r}) but "
+                            f"FPR(t)={fpr_g!r} FNR(t)={fnr_g!r}")
+            require(abs(eg - e) <= 1e-9 and abs(tg - t) <= 1e-9 * rng, "eer:group-scores-differs",
+                    f"{ctx} Scores.eer()=({t!r},{e!r}) GroupScores.eer()=({tg!r},{eg!r})")
         if 0 < e < 1:
             overlap = True
         # increasing affine map
@@ -98,11 +112,32 @@ def _any_scores(draw):
     return dict(s=s)
 
 
+_NARROW = {"uint8": (0, 255), "int8": (-128, 127), "int16": (-32768, 32767), "uint16": (0, 65535),
+           "float16": (-60000, 60000)}
+
+
+@st.composite
+def _narrow_scores(draw):
+    """Quantised scores stored in a narrow dtype, values up to the top of its range."""
+    dtype = draw(st.sampled_from(sorted(_NARROW)))
+    lo, hi = _NARROW[dtype]
+    n, m = draw(st.integers(1, 6)), draw(st.integers(1, 6))
+    span = hi - lo
+    region = draw(st.sampled_from(["top", "top", "bottom", "anywhere"]))
+    a, b = {"top": (hi - span // 3, hi), "bottom": (lo, lo + span // 3), "anywhere": (lo, hi)}[region]
+    step = 32 if dtype == "float16" else 1  # exactly representable in float16
+    vals = [v - v % step for v in draw(st.lists(st.integers(a, b), min_size=n + m, max_size=n + m))]
+    arr = draw(st.sampled_from(["mixed", "separated", "separated", "inverted", "inverted"]))
+    pos, neg = gen.arrange(draw, vals, n, m, arr)
+    return dict(s=dict(pos=list(pos), neg=list(neg), ep=draw(st.sampled_from([0, 0, 3])),
+                       en=draw(st.sampled_from([0, 0, 2])), mode="int", arr=arr, np_dtype=dtype))
+
+
 def check_zero(case):
     s = case["s"]
-    dt = int if s["mode"] == "int" else float
+    dt = s.get("np_dtype") or (int if s["mode"] == "int" else float)
     zero = False
-    labels = [f"arr:{s['arr']}"]
+    labels = [f"arr:{s['arr']}"] + ([f"dtype:{s['np_dtype']}"] if s.get("np_dtype") else [])
     from score_analysis import Scores
 
     for sc, ec in CONFIGS:
@@ -139,7 +174,7 @@ PROP = Prop(
     clauses=[
         Clause("crossing", check_crossing, strategy=lambda tier: _tiefree(12 if tier == "quick" else 40), quick=100, thorough=2000,
                quick_shards=6, min_nontrivial=100, doc="defining relation, cap, equivariance"),
-        Clause("zero", check_zero, strategy=_any_scores(), quick=250, thorough=4800, quick_shards=2,
+        Clause("zero", check_zero, strategy=st.one_of(_any_scores(), _any_scores(), _narrow_scores()), quick=250, thorough=4800, quick_shards=2,
                min_nontrivial=50, doc="reported EER 0 comes with an error-free threshold"),
     ],
     assumptions=["'moderate magnitude': |score| <= ~2e6; tie-free inputs have separation >= 1e-3"],
